@@ -9,7 +9,7 @@
    [PrefixFree text]: no proper prefix of the record's JSON text has the SHA-256 of the whole text — needed only for
    tears after the tab; a property of the hash on one string that no theorem can establish, hence a hypothesis
    visible in each statement.  Modelled, not verified: a single O_APPEND write(2) lands as a prefix of its bytes. *)
-From CC Require Import Bytes Codec Utf8 Lines Json Sri Record Fs Prog Api Crash BytesP CodecP LinesP FsP ProgP SriP RecordP IndexP ReadP WriteP CommitP RemoveP CrashP CrashIdxP KeepP.
+From CC Require Import Bytes Codec Utf8 Lines Json Sri Record Fs Prog Api Crash BytesP CodecP LinesP FsP ProgP SriP RecordP IndexP ReadP WriteP CommitP RemoveP CrashP CrashIdxP KeepP TotalP ConfineP FaultP Sess SessP JsonP RecCodecP MetaP HistP CrashHistP.
 
 Section C04.
 Variable hash : algo -> bytes -> bytes.
@@ -76,6 +76,41 @@ Theorem C04_remove_crash_keeps_content f key now a0 d :
   lookup (snd (run (insert hash key wopts0 now) f)) (InCache (cpath hash a0 d)) = Some (File d).
 Proof. intros H. apply (insert_keeps hash); [eexists _, _; reflexivity|exact H]. Qed.
 
+(* the WHOLE keyed write (opening the writer, every chunk, trimming, publishing, the index append torn anywhere), from any
+   well-shaped cache: at every crash state every other key's lookup is as before, the key is at its previous entry or at
+   the complete new one with its content stored, the index stays well-shaped *)
+Theorem C04_whole_write_crash f fl key o cs now :
+  CacheInv f -> o_sri o = None -> size_ok o (lenN (List.concat cs)) = true ->
+  let data := List.concat cs in let a := algo_of o in
+  let o' := commit_opts o (sri_of hash a data) (lenN data) in
+  wf_rec hash (smeta_of key o' now) -> PrefixFree hash (encode_smeta (smeta_of key o' now)) ->
+  Forall (fun c => IndexInv c /\
+                   (forall k, k <> key -> abs_idx hash c k = abs_idx hash f k) /\
+                   (abs_idx hash c key = abs_idx hash f key \/
+                    (abs_idx hash c key = new_entry key o' now /\ lookup c (InCache (cpath hash a data)) = Some (File data))))
+         (crash_states (stream_write hash fl (Some key) o cs now) f).
+Proof. exact (stream_write_keyed_crash hash HL f fl key o cs now). Qed.
+
+(* and after ANY history of writes and removals (HistP.v): a kill at any point of the next keyed write; every other key
+   reads exactly what the history's specification says (its stored value, or not found), the written key reads its old
+   value or the new data *)
+Theorem C04_crash_after_history (h : list cop) fl key o cs now :
+  forallb (c_ok hash) h = true -> c_ok hash (CStream fl key o cs now) = true ->
+  NoColl hash (c_all (c_step (fold_left c_step h cspec0) (CStream fl key o cs now))) ->
+  let f := fold_left (c_run hash) h [] in let s := fold_left c_step h cspec0 in
+  let data := List.concat cs in let a := algo_of o in
+  PrefixFree hash (encode_smeta (smeta_of key (commit_opts o (sri_of hash a data) (lenN data)) now)) ->
+  Forall (fun c =>
+            (forall k, k <> key ->
+               match c_map s k with
+               | Some (a0, d0) => memb (a0, d0) (c_stored s) = true -> run (read hash k) c = (Ok d0, c)
+               | None => run (read hash k) c = (Err ENotFound, c)
+               end) /\
+            (run (read hash key) c = (c_read s key, c) \/ run (read hash key) c = (Ok data, c) \/
+             exists a0 d0, c_map s key = Some (a0, d0) /\ memb (a0, d0) (c_stored s) = false))
+         (crash_states (stream_write hash fl (Some key) o cs now) f).
+Proof. exact (crash_reads_after_history hash HL h fl key o cs now). Qed.
+
 End C04.
 
 Definition toy_hash (a : algo) (d : bytes) : bytes :=
@@ -99,3 +134,5 @@ Print Assumptions C04_torn_append.
 Print Assumptions C04_crash_then_continue.
 Print Assumptions C04_write_crash_keeps_content.
 Print Assumptions C04_remove_crash_keeps_content.
+Print Assumptions C04_whole_write_crash.
+Print Assumptions C04_crash_after_history.
